@@ -31,3 +31,27 @@ impl<T: Clone> VClone for T {
     #[verifier::external_body]
     fn vclone(&self) -> (r: T) ensures r == *self { self.clone() }
 }
+// R12 helpers: the std documentation stated over the closure's own ensures
+#[verifier::external_body]
+pub fn iter_position<T, F: Fn(&T) -> bool>(v: &Vec<T>, f: F) -> (r: Option<usize>)
+    requires forall|i: int| 0 <= i < v.len() ==> f.requires((&#[trigger] v[i],))
+    ensures match r {
+        Some(i) => i < v.len() && f.ensures((&v[i as int],), true)
+            && forall|j: int| 0 <= j < i ==> f.ensures((&#[trigger] v[j],), false),
+        None => forall|j: int| 0 <= j < v.len() ==> f.ensures((&#[trigger] v[j],), false),
+    }
+{ v.iter().position(f) }
+#[verifier::external_body]
+pub fn opt_is_some_and<T, F: FnOnce(&T) -> bool>(o: Option<&T>, f: F) -> (r: bool)
+    requires o is Some ==> f.requires((o->Some_0,))
+    ensures o is None ==> !r, o is Some ==> f.ensures((o->Some_0,), r)
+{ o.is_some_and(f) }
+#[verifier::external_body]
+pub fn iter_find<'a, T, F: Fn(&&'a T) -> bool>(v: &'a Vec<T>, f: F) -> (r: Option<&'a T>)
+    requires forall|i: int| 0 <= i < v.len() ==> f.requires((&&#[trigger] v[i],))
+    ensures match r {
+        Some(x) => exists|i: int| 0 <= i < v.len() && *x == v[i] && f.ensures((&&v[i],), true)
+            && forall|j: int| 0 <= j < i ==> f.ensures((&&#[trigger] v[j],), false),
+        None => forall|j: int| 0 <= j < v.len() ==> f.ensures((&&#[trigger] v[j],), false),
+    }
+{ v.iter().find(f) }
